@@ -394,6 +394,19 @@ func main() {
 				sum.Hist("expr:root-probes")
 			}
 		}
+		ps, pn := bareNameProbes(d, r, 12)
+		for i := range ps {
+			if *only == "ops" || hung >= 3 {
+				break
+			}
+			c := &exprCase{Kind: "expr", Doc: text, Expr: pn[i], Start: d.paths[ps[i]], Pool: pre}
+			out := rn.runExprCase(d, c, false)
+			sum.Count("expr|"+text+"|"+pn[i]+"|"+pathLabel(c.Start), hasAttr)
+			sum.Hist("expr:bare-child-name")
+			if out.n == 0 {
+				sum.Hist("expr:bare-child-name-selects-nothing(children-all-prefixed)")
+			}
+		}
 		g := newExprGen(r, d)
 		for e := 0; e < exprPerDoc && *only != "ops" && hung < 3; e++ {
 			scalar := r.Chance(0.2)
